@@ -227,6 +227,12 @@ type c22Stream struct {
 	closes atomic.Int32
 	atEOF  func() // called once, right before io.EOF is returned
 	eofed  bool
+	// reader behaviours the io.Reader contract allows (callers must consume n > 0 bytes before looking at err):
+	eofJoined bool // the final bytes are returned together with io.EOF (iotest.DataErrReader, net/http bodies)
+	oneByte   int  // the first `oneByte` Reads deliver a single byte
+	zeroReads bool // a (0, nil) Read precedes every part
+	zeroDone  bool
+	reads     int
 }
 
 func (s *c22Stream) Read(p []byte) (int, error) {
@@ -237,15 +243,63 @@ func (s *c22Stream) Read(p []byte) (int, error) {
 		}
 		return 0, io.EOF
 	}
+	if s.zeroReads && !s.zeroDone {
+		s.zeroDone = true
+		return 0, nil
+	}
+	s.zeroDone = false
+	s.reads++
 	part := s.parts[s.pi]
+	if len(part) == 0 {
+		s.pi++
+		if s.eofJoined && s.pi >= len(s.parts) {
+			return 0, io.EOF
+		}
+		return 0, nil
+	}
+	if s.reads <= s.oneByte && len(p) > 1 {
+		p = p[:1]
+	}
 	n := copy(p, part)
 	if n < len(part) {
 		s.parts[s.pi] = part[n:]
 	} else {
 		s.pi++
 	}
+	if s.eofJoined && s.pi >= len(s.parts) {
+		if !s.eofed && s.atEOF != nil {
+			s.eofed = true
+			s.atEOF()
+		}
+		return n, io.EOF
+	}
 	return n, nil
 }
+
+// c22StreamWT additionally implements io.WriterTo (the copy loops delegate to it); c22StreamBWT implements
+// fasthttp.BodyWriterTo and answers SupportsBodyWriteTo with `ok`.
+type c22StreamWT struct{ *c22Stream }
+
+func (s c22StreamWT) WriteTo(w io.Writer) (int64, error) {
+	var total int64
+	for _, p := range s.parts[s.pi:] {
+		n, err := w.Write(p)
+		total += int64(n)
+		if err != nil {
+			return total, err
+		}
+	}
+	s.pi = len(s.parts)
+	return total, nil
+}
+
+type c22StreamBWT struct {
+	c22StreamWT
+	ok bool
+}
+
+func (s c22StreamBWT) SupportsBodyWriteTo() bool { return s.ok }
+
 func (s *c22Stream) Close() error { s.closes.Add(1); return nil }
 
 // ---- handler wrappers ----------------------------------------------------------------------------------------
@@ -257,6 +311,8 @@ type c22HandlerIn struct {
 	hasAE       bool
 	ct, ce, vry []byte
 	mode        byte // 'b' buffered, 's' stream (unknown size), 'f' stream (declared size), 'w' StreamWriter
+	rd          byte // reader behaviour of a stream body: 0 plain, 'e' final bytes with io.EOF, 'o' 1-byte reads first,
+	// 'z' zero-length reads, 'a' all three, 't' io.WriterTo, 'T'/'F' BodyWriterTo supporting / not supporting WriteTo
 	nested      bool
 	parts       [][]byte
 	atEOF       func()
@@ -295,11 +351,32 @@ func c22RunHandler(in *c22HandlerIn) *c22HandlerOut {
 				parts[i] = append([]byte(nil), p...)
 			}
 			st = &c22Stream{parts: parts, atEOF: in.atEOF}
+			switch in.rd {
+			case 'e':
+				st.eofJoined = true
+			case 'o':
+				st.oneByte = 40
+			case 'z':
+				st.zeroReads = true
+			case 'a':
+				st.eofJoined, st.oneByte, st.zeroReads = true, 17, true
+			case 'F':
+				st.eofJoined = true
+			}
 			size := -1
 			if in.mode == 'f' {
 				size = len(body)
 			}
-			ctx.SetBodyStream(st, size)
+			var rdr io.Reader = st
+			switch in.rd {
+			case 't':
+				rdr = c22StreamWT{st}
+			case 'T':
+				rdr = c22StreamBWT{c22StreamWT{st}, true}
+			case 'F':
+				rdr = c22StreamBWT{c22StreamWT{st}, false}
+			}
+			ctx.SetBodyStream(rdr, size)
 		case 'w':
 			parts := in.parts
 			ctx.SetBodyStreamWriter(func(w *bufio.Writer) {
@@ -428,8 +505,11 @@ func c22Handler(a [][]byte) *Case {
 	if len(a[0]) == 1 {
 		in.which = a[0][0]
 	}
-	if len(a[7]) == 1 {
+	if len(a[7]) >= 1 {
 		in.mode = a[7][0]
+	}
+	if len(a[7]) >= 2 && (in.mode == 's' || in.mode == 'f') && strings.ContainsRune("eozatTF", rune(a[7][1])) {
+		in.rd = a[7][1]
 	}
 	in.parts = a[10:]
 	for _, k := range c22Kinds {
@@ -474,6 +554,9 @@ func c22Handler(a [][]byte) *Case {
 	}
 	line := Line("c22handler", append([][]byte{which, level, N(in.bl), aeSeen, ctSeen, in.ce, in.vry, {in.mode}, a[8]}, lens...)...)
 	tags := []string{"handler-" + string(in.which) + string(in.mode), "handler-compressed-" + fmt.Sprint(compressed)}
+	if in.rd != 0 {
+		tags = append(tags, "handler-reader-"+string(in.rd), fmt.Sprintf("handler-reader-%c-compressed-%v", in.rd, compressed))
+	}
 	if valid, _ := c22ParseAE(string(aeSeen)); !valid {
 		tags = append(tags, "ae-malformed")
 	}
@@ -1221,6 +1304,10 @@ func init() {
 			for i := 0; i < n; i++ {
 				which := []byte("CLLBBB")[r.Intn(6)]
 				mode := []byte("bbbbssfw")[r.Intn(8)]
+				rd := ""
+				if (mode == 's' || mode == 'f') && r.Chance(75) {
+					rd = string([]byte("eeeozattTF")[r.Intn(10)])
+				}
 				body := text(sizes())
 				if i == 0 && tier != "thorough" {
 					body = text(1 << 20)
@@ -1253,7 +1340,21 @@ func init() {
 					nested = "1"
 				}
 				emit("handler", append([][]byte{{which}, N(r.Intn(21) - 5), N(r.Intn(18) - 3), B(ae), B(ct), B(ce), B(varys[r.Intn(len(varys))]),
-					{mode}, B(nested), B(hasAE)}, parts...)...)
+					append([]byte{mode}, rd...), B(nested), B(hasAE)}, parts...)...)
+			}
+			// every coding x every reader behaviour of a streamed body x sizes around the buffers, through the Brotli wrapper
+			// (which serves all four codings): what a stream delivers together with io.EOF, in 1-byte reads, after
+			// zero-length reads, or through WriteTo must all reach the compressor
+			for _, k := range c22Kinds {
+				for _, rd := range []byte("eozatTF") {
+					for _, sz := range []int{1, 199, 5000, 40000} {
+						body := text(sz)
+						cut := sz / 3
+						for _, md := range []byte("sf") {
+							emit("handler", []byte{'B'}, N(6), N(4), B(k), B("text/plain"), nil, nil, []byte{md, rd}, B("0"), B("e"), body[:cut], body[cut:])
+						}
+					}
+				}
 			}
 			names := []string{"gzip", "deflate", "br", "zstd"}
 			for i := 0; i < 4*n; i++ {
